@@ -599,7 +599,7 @@ func weight(s shard) int {
 }
 
 // violation buffers a violated case; flush reports, per signature, the case with the shortest input
-// (ties: family, corpus entry, case index) - independent of the scheduling of the shards.
+// (single mutations before pairs; ties: family, corpus entry, case index) - independent of the scheduling of the shards.
 func (r *runner) violation(sig, detail string, rc replayCase) {
 	r.violationN(sig, detail, rc, 1<<30, 1)
 }
@@ -612,7 +612,11 @@ type vrec struct {
 }
 
 func (v *vrec) key() string {
-	return fmt.Sprintf("%012d|%s|%s|%012d", v.size, v.rc.Shard.family(), v.rc.Shard.Entry, v.rc.Idx)
+	pair := 0
+	if v.rc.Shard.Pairs {
+		pair = 1 // a single mutation is the simpler witness
+	}
+	return fmt.Sprintf("%d|%012d|%s|%s|%012d", pair, v.size, v.rc.Shard.family(), v.rc.Shard.Entry, v.rc.Idx)
 }
 
 func (r *runner) violationN(sig, detail string, rc replayCase, size, count int) {
